@@ -186,7 +186,7 @@ def check(ctx):
                    msg="the container stored as %s[addr] is %s: subscribe and unsubscribe requests would share one window (counted together, "
                        "acknowledged by each other's packets, re-sent twice on resume)" % (e.a["reg"], show(v)), nontrivial=False)
     ctx.count("accept_paths", n_accept)
-    ctx.floor("subscribe/unsubscribe accepting paths", n_accept, 8)
+    ctx.floor("subscribe/unsubscribe accepting paths", n_accept, 4)
 
 
 def _is_len_of(t, reg):
